@@ -74,7 +74,7 @@ def run_one(ctx, extras=False):
     native.build(extras)
     known, _ = load_known(ctx.prop)
     N = int(os.environ.get("VERIF_C01_N", "4" if ctx.quick else "5"))
-    count = int(os.environ.get("VERIF_C01_GRAMMARS", "90" if ctx.quick else "1200"))
+    count = int(os.environ.get("VERIF_C01_GRAMMARS", "300" if ctx.quick else "1500"))
     gs = gramgen.family(ctx.seed, count, extras=extras)
     stages = front(gs, extras)
     accepted = [(g, s) for g, s in zip(gs, stages) if "error" not in s]
